@@ -1001,6 +1001,8 @@ def packet_loop_progress(an, prog, b, comp):
             fed = True
         elif m[0] in ("arg", "cycle"):
             pass
+        elif tail_by_length(an, m) is not None and peel(tail_by_length(an, m)[1])[0] == "field" and peel(tail_by_length(an, m)[1])[2] == "remaining":
+            fed = True       # offset cursor: the last `remaining.len()` bytes of the buffer (C02 R2.5 checks the details)
         else:
             return False, "loop-carried input is neither the entry slice nor Ok(..).remaining: %s" % canon(m)[:200]
     if not fed:
